@@ -472,6 +472,14 @@ fn main() {
             }
             println!("{}", nanreplay(&ps, &query.unwrap_or_default(), &t));
         }
+        "shapes" => {
+            // recipe designed by a fresh scalar planner for every n up to the bound (plan-report hook)
+            let upto: usize = specs[0].parse().unwrap();
+            for n in 0..=upto {
+                let (len, shape) = rustfft::verif_hooks::scalar_recipe_len_and_shape(n);
+                println!("{}\t{}\t{}", n, len, shape);
+            }
+        }
         "native" => {
             let ps = ProgSpec::parse(&specs[0]);
             println!("{}", native(&ps));
